@@ -124,6 +124,12 @@ class ApiError(Exception):
 class NotFound(ApiError, status=404):
   pass
 
+class Unsupported(TypeError):
+  def __init__(self, *payload):
+    super().__init__(*payload)
+    self.payload = payload
+
+
 class ZeroOrCode(Exception):
   """constructible with no argument or with (code, detail), but NOT from its own .args (a 3-tuple)"""
   def __new__(cls, code=None, detail=''):
@@ -197,6 +203,17 @@ class ExcEngine(Engine):
     for name in ('FileNotFoundError', 'KeyError', 'NeedsArgs'):
       for depth in (1, 2):
         cases.append({'cls': name, 'user': name == 'NeedsArgs', 'depth': depth, 'via_ref': False, 'brace_repr': True})
+    # exceptions whose .args is empty or starts with something that is not a string (the wrapper inspects TypeErrors)
+    for name, user, args in (('TypeError', False, '()'), ('TypeError', False, "(42, 'x')"), ('TypeError', False, "(None,)"),
+                             ('ValueError', False, '()'), ('KeyError', False, '((1, 2),)'), ('Unsupported', True, "(42, 'x')"),
+                             ('Unsupported', True, '()')):
+      for depth in (1, 2):
+        cases.append({'cls': name, 'user': user, 'depth': depth, 'via_ref': depth == 2, 'args': args})
+    # an intermediate configurable catches the exception, annotates that object and re-raises it with a bare raise
+    for name, user in (('ValueError', False), ('FileNotFoundError', False), ('KeyError', False), ('TypeError', False),
+                       ('NeedsArgs', True), ('Slotted', True), ('ClassDefault', True), ('ZeroOrCode', True), ('NewValidates', True)):
+      for depth in (2, 3):
+        cases.append({'cls': name, 'user': user, 'depth': depth, 'via_ref': False, 'annotate': True})
     return cases
 
   def gen(self, rng, tier):
@@ -207,7 +224,7 @@ class ExcEngine(Engine):
     env = {}
     exec(USER_CLASSES, env)  # pylint: disable=exec-used
     cls = env[case['cls']] if case['user'] else getattr(builtins, case['cls'])
-    args = (USER_ARGS if case['user'] else ARGS).get(case['cls'], "('msg', 5)")
+    args = case.get('args') or (USER_ARGS if case['user'] else ARGS).get(case['cls'], "('msg', 5)")
     env['cls'] = cls
     return cls, (lambda: eval('cls' + args, env))  # pylint: disable=eval-used
 
@@ -248,7 +265,14 @@ class ExcEngine(Engine):
 
     @gin.configurable
     def level2(a=None):
-      return raiser()
+      if not case.get('annotate'):
+        return raiser()
+      try:
+        return raiser()
+      except Exception as e:  # pylint: disable=broad-except
+        e.shard = 3
+        e.add_note('seen by level2')
+        raise
 
     @gin.configurable
     def level3(b=None):
@@ -365,6 +389,12 @@ class ExcEngine(Engine):
           obs_attrs.append([n, ok])
           if not ok:
             fails.append(('attribute-differs', '%s.%s: original %r, caught %r' % (case['cls'], n, pub[n], got)))
+        if case.get('annotate'):
+          # what the intermediate level put on the exception it caught is still there one and two levels up
+          if getattr(caught, 'shard', None) != 3 or 'seen by level2' not in getattr(caught, '__notes__', []):
+            fails.append(('annotation-lost', '%s annotated by an intermediate configurable (shard=3, a note) and re-raised: the '
+                          'caller reads shard=%r notes=%r' % (case['cls'], getattr(caught, 'shard', None),
+                                                              getattr(caught, '__notes__', None))))
         obs = T('Original') if caught is original else T('Proxy', obs_attrs)
     slots = slot_attrs(cls)
     return {'obs': obs, 'fails': fails[:4], 'nontrivial': case['depth'] >= 2 and (bool(slots) or case['user']),
